@@ -13,7 +13,6 @@
 # License for the specific language governing permissions and limitations
 # under the License.
 
-import copy
 import logging
 import six
 import sqlalchemy
@@ -2684,10 +2683,8 @@ class KmipEngine(object):
                     encryption_key=key.value
                 )
 
-                wrapped_object = copy.deepcopy(managed_object)
-                wrapped_object.value = result
-
-                core_secret = self._build_core_object(wrapped_object)
+                core_secret = self._build_core_object(managed_object)
+                core_secret.key_block.key_value.key_material.value = result
                 key_wrapping_data = KeyWrappingData(
                     wrapping_method=wrapping_method,
                     encryption_key_information=key_info,
